@@ -53,7 +53,7 @@ func genC03(g *gen) {
 			if s.Kind == "corr" {
 				op.QF = &QFSpec{NeedServer: -1, DoneAt: 1 + g.r.IntN(3)}
 			}
-			for _, p := range op.Plans {
+			for _, p := range plansInOrder(op.Plans) {
 				p.Late = g.chance(0.7)
 			}
 			if s.Kind == "cstream" {
